@@ -486,6 +486,24 @@ def run_shard(spec, ctx, acc):
             case = {"kind": "registered", "name": f"CFG_VERIF_KEY{i}", "kid": kid, "typ": typ, "val": val}
             for env in (None,) + tuple(core.ENVS):
                 core.handle(acc, core.checked(check, case, env=env), case, known)
+        # the largest messages the limit allows: 64 items of every storage width (documented
+        # keys of that width first, then undocumented IDs with the same size code)
+        for code, w in sorted(WIDTH.items()):
+            docs = sorted(n_ for n_, (k_, t_) in db().items() if (k_ >> 28) & 7 == code)[:50]
+            items = [[n_, codec.value_of(db()[n_][1], G.zero_raw(db()[n_][1]))] for n_ in docs]
+            j = 0
+            while len(items) < 64:
+                kid_ = (code << 28) | 0x0FE00000 | j
+                j += 1
+                if not names_of(kid_):
+                    items.append([kid_, bytes([j & 0xFF]) * w])
+            for helper in ("set", "del", "poll"):
+                for cnt in (64, 63):
+                    case = {"kind": "build", "helper": helper, "a": 1, "b": 0,
+                            "items": [list(i) if helper == "set" else [i[0]] for i in items[:cnt]]}
+                    o = core.checked(check, case)
+                    o.classes = list(o.classes) + ["full-message"]
+                    core.handle(acc, o, case, known)
         for helper in ("set", "del", "poll"):
             for n in (0, 1, 63, 64, 65, 66, 200):
                 case = {"kind": "limit", "helper": helper, "n": n}
